@@ -82,6 +82,7 @@ package markdown
 //@   requires tbl(t)
 //@   assigns new(MarkdownTable), heap[tabular.callbackSet.renderTime], heap[tabular.callbackSet.addTime], heap[tabular.callbackSet.preCellRenderTime], heap[tabular.callbackSet.postCellRenderTime], heap[[]tabular.PropertyCallback]
 //@   ensures result != nil && fresh(result) && result.Table === t
+//@   ensures [table-still-wellformed] tbl(t) @C10,C14
 //@   ensures [measuring-callback-registered] len(t.(*tabular.ATable).tableCellCallbacks.renderTime) == old(len(t.(*tabular.ATable).tableCellCallbacks.renderTime)) + 1 && dyn(t.(*tabular.ATable).tableCellCallbacks.renderTime[len(t.(*tabular.ATable).tableCellCallbacks.renderTime) - 1]) == type[widthSetter] @C10
 
 //@ func (*MarkdownTable).RenderTo
@@ -134,13 +135,11 @@ package markdown
 //@ func Render
 //@   tags C09,C10
 //@   requires tbl(t) && t.(*tabular.ATable).nColumns <= 1099511627774
-//@   call Wrap after assume tbl(t)
 //@   ensures [error-means-no-text] result1 != nil ==> result0 == "" @C09
 
 //@ func RenderTo
 //@   tags C09,C10,C15
 //@   requires tbl(t) && t.(*tabular.ATable).nColumns <= 1099511627774
-//@   call Wrap after assume tbl(t)
 //@   requires [writer-ok] !Wfailed
 //@   ensures [failing-writer-surfaces] Wfailed ==> result != nil @C15
 
